@@ -151,6 +151,10 @@ class TrackerMachine(HistorySpec):
             "add_tm_c": report,
             "remove_entry": st.integers(0, 7),
             "remove_completed": st.just(0),
+            # a run of reports for one telecommand as a spacecraft sends them (acceptance, start, steps, completion - success or failure at
+            # the end, sometimes with one more completing report behind it): brings entries to "all verifications received" often
+            "report_run": st.fixed_dictionaries({"t": st.sampled_from([0, 1, 2, 3, 5, 6, 7]), "steps": st.integers(0, 2), "end": st.sampled_from([7, 7, 8, 2, 4, 6]),
+                                                 "extra": st.sampled_from([0, 0, 7, 8, 2]), "decoded": st.integers(0, 1)}),
         }
 
     def start(self, params):
@@ -160,8 +164,28 @@ class TrackerMachine(HistorySpec):
             s.model.setdefault(s.key[t], new_status())
         return s
 
+    @staticmethod
+    def run_reports(a):
+        end = a["end"]
+        subs = []
+        if end == 2:
+            subs = [2]
+        elif end == 4:
+            subs = [1, 4]
+        else:
+            subs = [1, 3] + [5] * a["steps"] + ([6, 8] if end == 6 else [end])
+        if a["extra"]:
+            subs.append(a["extra"])
+        return [{"t": a["t"], "sub": sub, "step": i, "decoded": a["decoded"]} for i, sub in enumerate(subs)]
+
     def step(self, s, name, a):
         devs = []
+        if name == "report_run":
+            for rep in self.run_reports(a):
+                devs.extend(self.step(s, "add_tm", rep))
+                if devs:
+                    break
+            return devs
         if name.startswith("add_tm"):
             name = "add_tm"
         if name == "add_tc":
@@ -209,7 +233,13 @@ def _touched(trace):
 
 
 def _norm(trace):
-    return [("add_tm" if n.startswith("add_tm") else n, a) for n, a in trace["steps"]]
+    out = []
+    for n, a in trace["steps"]:
+        if n == "report_run":
+            out.extend(("add_tm", rep) for rep in TrackerMachine.run_reports(a))
+        else:
+            out.append(("add_tm" if n.startswith("add_tm") else n, a))
+    return out
 
 
 def _nt(trace):
